@@ -9,7 +9,9 @@ use core::num::NonZeroUsize;
 #[cfg(tiny_std_verif)]
 use crate::verif::AtomicU32;
 #[cfg(tiny_std_verif)]
-use core::sync::atomic::{AtomicBool, Ordering};
+use crate::verif_thread::AtomicBool;
+#[cfg(tiny_std_verif)]
+use core::sync::atomic::Ordering;
 #[cfg(not(tiny_std_verif))]
 use core::sync::atomic::{AtomicBool, AtomicU32, Ordering};
 use sc::nr::MUNMAP;
